@@ -25,9 +25,16 @@ class Loop:
                  index: str = "_i", prefix_folds: Optional[Dict[str, Tuple[str, str, str]]] = None,
                  body_ensures: Optional[List[Named]] = None, header: Optional[str] = None,
                  elem_facts: Optional[List[str]] = None, body_twins: Optional[List[Named]] = None,
-                 exit_only: bool = False, list_folds: Optional[Dict[str, Dict[str, Tuple[str, str]]]] = None,
-                 use_gfolds: Optional[List[str]] = None, also_modifies: Optional[List[str]] = None):
+                 exit_only: bool = False, list_folds: Optional[Dict[str, Dict[str, str]]] = None,
+                 use_gfolds: Optional[List[str]] = None, also_modifies: Optional[List[str]] = None,
+                 join_prefixes: Optional[Dict[str, str]] = None, acc: str = "_out", acc_type: Optional[str] = None):
         self.use_gfolds = use_gfolds or []
+        # name -> separator: name(k) is sep.join(xs[:k]) of the iterated list xs (definition instantiated at the loop
+        # index; name(len(xs)) is sep.join(xs))
+        self.join_prefixes = join_prefixes or {}
+        # list comprehensions cut like loops (Contract.comps): ghost name and declared type of the list being built
+        self.acc = acc
+        self.acc_type = acc_type
         self.also_modifies = also_modifies or []
         self.invariants = _named(invariants, "inv")
         self.modifies = modifies
@@ -40,6 +47,8 @@ class Loop:
         self.elem_facts = elem_facts or []
         self.exit_only = exit_only
         self.skip_exit = False
+        # list variable -> {fold name: "lambda acc, x: ..."}: a boolean fold over the elements of the list, kept up to
+        # date by append; fold_name(the_list) in invariants and postconditions
         self.list_folds = list_folds or {}
 
 
@@ -55,7 +64,9 @@ class Contract:
                  use_as_callee: bool = True, max_paths: int = 4000, facts: Optional[List[str]] = None,
                  note: str = "", allow_sym_writes: bool = False, inline_depth: int = 8,
                  replay: Optional[str] = None, expect_paths: int = 1, ob_timeout_ms: Optional[int] = None,
-                 assumed: bool = False, justification: str = "", pure: Optional[List[str]] = None):
+                 assumed: bool = False, justification: str = "", pure: Optional[List[str]] = None,
+                 comps: Optional[Dict[int, Loop]] = None):
+        self.comps = comps or {}  # list comprehensions of the function (1-based, source order) cut like loops
         self.pure = pure or []  # qualname prefixes treated as uninterpreted pure functions
         self.assumed = assumed  # trusted contract of a function outside the verifier's reach: never "proved"
         self.justification = justification
